@@ -676,3 +676,75 @@ pub fn structured_pair(rng: &mut Rng, max: usize) -> (Vec<u32>, Vec<u32>, &'stat
         }
     }
 }
+
+/// All items unique per side.  Ordered common items come in `runs` runs of 2..max_run items, separated by
+/// one-sided noise (old-only / new-only items); a contiguous block of `block` common items sits at
+/// different places of the two sides (it is MOVED across some or all of the runs).  The longest in-order
+/// set of common items is known: max(sum of the runs the block does not have to cross + block, sum of runs)
+/// — callers use their own LIS oracle; returned: (old, new).
+pub fn moved_block_pair(rng: &mut Rng, runs: usize, max_run: usize, block: usize, max_noise: usize) -> (Vec<u32>, Vec<u32>) {
+    let mut next_common = 30_000_000u32;
+    let mut next_old = 10_000_000u32;
+    let mut next_new = 20_000_000u32;
+    let blk: Vec<u32> = (0..block as u32).map(|i| 40_000_000 + i).collect();
+    let mut a: Vec<Vec<u32>> = Vec::new();
+    let mut b: Vec<Vec<u32>> = Vec::new();
+    for _ in 0..runs {
+        let len = 2 + rng.below(max_run.saturating_sub(1).max(1));
+        let run: Vec<u32> = (0..len as u32).map(|i| next_common + i).collect();
+        next_common += len as u32;
+        let (no, nn) = (rng.below(max_noise + 1), rng.below(max_noise + 1));
+        let mut sa = run.clone();
+        sa.extend((0..no as u32).map(|i| next_old + i));
+        next_old += no as u32;
+        let mut sb = run;
+        sb.extend((0..nn as u32).map(|i| next_new + i));
+        next_new += nn as u32;
+        a.push(sa);
+        b.push(sb);
+    }
+    let (pa, pb) = match rng.below(4) {
+        0 => (runs, 0),
+        1 => (0, runs),
+        _ => (rng.below(runs + 1), rng.below(runs + 1)),
+    };
+    a.insert(pa, blk.clone());
+    b.insert(pb, blk);
+    (a.concat(), b.concat())
+}
+
+/// `hunks` separate small changes in a long sequence of otherwise distinct items: the raw edit script has
+/// more than 2 * hunks edits and the captured list about 2 * hunks ops.  Every 7th hunk is one whose
+/// clean-up matters (`q s t` -> `s i s t`: the insertion can slide), every 5th a pure insertion, every
+/// 11th a pure deletion, the rest 1:1 replacements.
+pub fn many_hunks_pair(hunks: usize) -> (Vec<u32>, Vec<u32>, usize) {
+    let mut a = Vec::with_capacity(hunks * 4);
+    let mut b = Vec::with_capacity(hunks * 4);
+    let mut opt = 0usize;
+    for h in 0..hunks as u32 {
+        let c = 1_000_000 + 4 * h;
+        a.push(c);
+        b.push(c);
+        if h % 7 == 3 {
+            let (q, s, t, i) = (50_000_000 + h, 60_000_000 + h, 70_000_000 + h, 80_000_000 + h);
+            a.extend_from_slice(&[q, s, t]);
+            b.extend_from_slice(&[s, i, s, t]);
+            opt += 3;
+        } else if h % 5 == 1 {
+            b.push(20_000_000 + h);
+            opt += 1;
+        } else if h % 11 == 2 {
+            a.push(10_000_000 + h);
+            opt += 1;
+        } else {
+            a.push(10_000_000 + h);
+            b.push(20_000_000 + h);
+            opt += 2;
+        }
+        if h % 3 == 0 {
+            a.push(c + 1);
+            b.push(c + 1);
+        }
+    }
+    (a, b, opt)
+}
